@@ -32,6 +32,7 @@ THEOREMS = ["C12_inv_init", "C12_inv_step", "C12_inv_reachable", "C12_async_refi
             "C12_runner_sound"]
 
 _FAILING = {}     # case key -> explicit failing schedule (filled by direct, used by shrink_candidates)
+_NRUNS = {}       # case key -> (schedules executed by the driver, distinct observations) (filled by direct, used by features)
 
 
 # --------------------------------------------------------------------------------------------------
@@ -182,7 +183,7 @@ def generate(rng, tier):
     quick = tier == "quick"
     light, heavy = [], []
     # 1. exhaustive token schedules (producer requests atomic) on small workloads, a failing call at every position
-    for work, fmax, cpl in ([(W_TINY2, 8, range(0, 9)), (W_TWO3, 5, (0, 2, 4)), (W_ONE3, 5, (0, 1, 3)),
+    for work, fmax, cpl in ([(W_TINY2, 7, range(0, 8)), (W_TWO3, 5, (0, 2, 4)), (W_ONE3, 5, (0, 1, 3)),
                              (W_SHARE, 4, (0, 3))] if quick else
                             [(W_TINY2, 9, range(0, 10)), (W_TWO3, 7, (0, 1, 2, 4, 6)), (W_ONE3, 7, (0, 1, 3, 5)),
                              (W_SHARE, 6, (0, 1, 3, 5)), (W_TWO4, 4, (0, 3))]):
@@ -190,7 +191,7 @@ def generate(rng, tier):
         for vi, wv in enumerate(variants):
             for k, toks in enumerate(token_schedules(wv, fmax, cpl)):
                 # failing variants: every third schedule (the positions are what is exhaustive there)
-                if vi and (k + vi) % (3 if quick else 2):
+                if vi and (k + vi) % (5 if quick else 2):
                     continue
                 light.append(mk(wv, dict(kind="tokens", tokens=toks), "exhaustive-tokens"))
     # 2. random token schedules on random larger workloads
@@ -199,13 +200,15 @@ def generate(rng, tier):
         light.append(mk(w, dict(kind="tokens", tokens=rand_tokens(rng, w)), "random-tokens"))
     # 3. bounded-preemption exhaustive exploration by the driver
     for w in [W_TWO3, W_SHARE, W_THREE, W_RESET, with_fail_at(W_TWO4, 1), with_fail_at(W_ONE3, 0), with_fail_at(W_THREE, 3)]:
-        heavy.append(mk(w, dict(kind="explore", gran="atomic", budget=1, max_runs=2500 if quick else 20000), "explore-atomic"))
+        heavy.append(mk(w, dict(kind="explore", gran="atomic", budget=1, max_runs=1200 if quick else 20000), "explore-atomic"))
     for w in [W_TINY2, W_SHARE, with_fail_at(W_ONE3, 1)] + ([] if quick else [W_TWO3, W_TWO4, W_THREE, W_RESET]):
-        heavy.append(mk(w, dict(kind="explore", gran="line", budget=1, max_runs=2500 if quick else 20000), "explore-line"))
+        heavy.append(mk(w, dict(kind="explore", gran="line", budget=1, max_runs=2000 if quick else 20000), "explore-line"))
     if not quick:
         for w in [W_TINY2, W_SHARE, W_TWO3]:
             heavy.append(mk(w, dict(kind="explore", gran="atomic", budget=2, max_runs=15000), "explore-atomic"))
         heavy.append(mk(W_TINY2, dict(kind="explore", gran="line", budget=2, max_runs=15000), "explore-line"))
+        for w in [W_TINY2, W_SHARE, W_ONE3]:
+            heavy.append(mk(w, dict(kind="explore", gran="opcode", budget=1, max_runs=15000), "explore-opcode"))
     # 4. seeded random walks (random preemption at every yield point) on random workloads
     for j in range(16 if quick else 160):
         w = rand_work(rng, rng.randrange(1, 4), 5, rng.randrange(1, 4))
@@ -282,8 +285,12 @@ def to_gallina(case, obs, first_only=False):
         return None             # real threads: implementation side only
     work = glist([glist([g_op(i, op) for i, op in enumerate(ops)]) for ops in case["work"]])
     runs = obs["runs"][:1] if first_only else obs["runs"]
-    return "Runs %s %s %s %s" % (gnat(case["nrec"]), work, gbool(case["sched"]["kind"] == "tokens"),
-                                 glist([g_run(r) for r in runs]))
+    terms = []
+    for r in runs:           # schedules that differ only in where calls began/ended give the same model-level run
+        t = g_run(r)
+        if t not in terms:
+            terms.append(t)
+    return "Runs %s %s %s %s" % (gnat(case["nrec"]), work, gbool(case["sched"]["kind"] == "tokens"), glist(terms))
 
 
 def explain(case, obs):
@@ -416,6 +423,7 @@ def direct(case, obs):
             if all(sig in d for d in per):      # real-time observation: must reproduce in every repetition
                 out[sig + "(real-threads)"] = per[0][sig]
         return sorted(out.items())
+    _NRUNS[_key(case)] = (obs.get("nruns", 1), len(obs["runs"]), bool(obs.get("truncated")))
     for r in obs["runs"]:
         for sig, msg in run_failures(case, r):
             if sig not in out:
@@ -453,6 +461,8 @@ def shrink_candidates(case):
 
 def search_harder(rng, bad_cases):
     extra = []
+    for w in [W_TINY2, W_SHARE]:
+        extra.append(mk(w, dict(kind="explore", gran="opcode", budget=1, max_runs=8000), "explore-opcode"))
     for w in [W_TINY2, W_SHARE, W_TWO3, W_RESET]:
         extra.append(mk(w, dict(kind="explore", gran="line", budget=2, max_runs=6000), "explore-line"))
     for j in range(24):
@@ -473,6 +483,11 @@ def features(case):
     f = {"schedule:" + sc["kind"] + (":" + sc["gran"] if "gran" in sc else "")}
     if sc["kind"] == "gate":
         return f
+    if sc["kind"] in ("explore", "random") and _key(case) in _NRUNS:
+        n, d, trunc = _NRUNS[_key(case)]
+        f.add("schedules-run-inside-case:%s" % ("<100" if n < 100 else "100-999" if n < 1000 else "1000-9999" if n < 10000 else "10000+"))
+        if trunc:
+            f.add("exploration-truncated-at-max_runs")
     w = case["work"]
     f.add("producers=%d" % len(w))
     f.add("requests=%s" % (nops(w) if nops(w) < 6 else "6+"))
